@@ -31,7 +31,7 @@ def wake (v : View) (evt : Bool) : Tgt :=
   if !v.installed then .q (dkq v)
   else if !v.canceled && v.needsConfig then .q (dkq v)
   else if v.regH then .q .T
-  else if v.needsDelete then .q .T
+  else if v.needsDelete then .q (dkq v)        -- since F27 (was: the target queue)
   else if !v.canceled && v.pending then .q .T
   else if v.canceled && !v.deleted then
     if v.timerDisarmed then .q .T
@@ -72,6 +72,8 @@ def inv (v : View) (cur : Q) (unregOk : Bool) : Res := Id.run do
     if cur ≠ .T then return { v, out := .redirect .T, acted }
     v := { v with regH := false }; acted := true
   if v.needsDelete then
+    -- since F27: a deferred deletion (peer hang-up) is acknowledged on the kevent queue like every other unregistration
+    if cur ≠ k then return { v, out := .redirect k, acted }
     v := { v with needsDelete := false, deleted := true }; acted := true
   if !v.canceled && v.pending then
     if cur = .T then
@@ -141,6 +143,28 @@ def chkProgress (v : View) : Bool :=
 theorem all_checks : allViews.all (fun v => chkIdle v && chkNoHandlerAfterCancel v && chkCancelCallout v && chkProgress v) = true := by
   decide +kernel
 
+/-- an invocation that gives up the source's kernel registration (`deleted` becomes true) runs on the kevent queue, or the source
+    is a disarmed timer (whose heap entry is the target queue's to remove) -/
+def chkUnregOnKq (v : View) : Bool :=
+  allQ.all fun c => allBools.all fun u =>
+    let r := inv v c u
+    !(!v.deleted && r.v.deleted) || c == dkq v || v.timerDisarmed
+
+theorem unreg_checks : allViews.all chkUnregOnKq = true := by
+  decide +kernel
+
+/-- **the registration is given up on the kevent queue only** (the manager queue for the muxed sources of this platform, whose
+    mux-note is shared by all sources of the descriptor and is not locked): for every view and either queue, cancellation and the
+    deferred deletion after a hang-up alike. False before F27: the deferred deletion was acknowledged on whatever queue the source
+    was invoked on, concurrently with the manager thread and with the other sources of the descriptor. -/
+theorem unregister_on_kevent_queue (v : View) (c : Q) (u : Bool) (h0 : v.deleted = false) (h1 : (inv v c u).v.deleted = true) :
+    c = dkq v ∨ v.timerDisarmed = true := by
+  have := List.all_eq_true.mp unreg_checks v (mem_allViews v)
+  simp only [chkUnregOnKq, List.all_eq_true] at this
+  have := this c (by cases c <;> simp [allQ]) u (by cases u <;> simp [allBools])
+  simp only [h0, h1, Bool.not_false, Bool.and_self, Bool.not_true, Bool.false_or, Bool.or_eq_true, beq_iff_eq] at this
+  exact this
+
 theorem chk_all (v : View) : chkIdle v = true ∧ chkNoHandlerAfterCancel v = true ∧ chkCancelCallout v = true ∧ chkProgress v = true := by
   have := List.all_eq_true.mp all_checks v (mem_allViews v)
   simp only [Bool.and_eq_true] at this
@@ -206,4 +230,5 @@ section audit
 #print axioms SrcP.wakeup_none_means_idle
 #print axioms SrcP.no_handler_when_canceled
 #print axioms SrcP.cancel_callout_guard
+#print axioms SrcP.unregister_on_kevent_queue
 end audit
